@@ -254,6 +254,15 @@ def throw_type(progs):
             if not (f['name'].startswith(VEC_NS) or f['name'].startswith('amc::Vector')):
                 continue
             P = None
+            # a private helper that only the members of one documented role call throws on their behalf
+            # (`at()` delegating its index test to a shared `throwIfOutOfRange`)
+            role_name = f['name'] if f['name'] in THROW_ROLES else None
+            if role_name is None and any(n.get('k') == 'throw' and n.get('sub') is not None for n in walk(body)):
+                callers = {g['name'] for g in prog.amc_functions() if f['id'] in (g.get('calls') or []) and g['id'] != f['id']}
+                if callers and len(callers) == 1 and list(callers)[0] in THROW_ROLES:
+                    role_name = list(callers)[0]
+                    ent = role_throws.setdefault(role_name, [False, f, prog])
+                    ent[0] = True
             if f['name'] in THROW_ROLES:
                 seen_roles.add(f['name'])
                 # the 2-type swap_sizetype only: the same-type overload is noexcept; with `if constexpr` an instantiation for two
@@ -267,7 +276,7 @@ def throw_type(progs):
                 if n.get('k') != 'throw' or n.get('sub') is None:
                     continue
                 ty = n.get('of', '').replace('const ', '')
-                want = THROW_ROLES.get(f['name'])
+                want = THROW_ROLES.get(role_name)
                 rr.instance('%s|%s' % (f['key'], rel(prog.site(f, n))), {'function': f['pname'][:120], 'throws': ty, 'expected': want})
                 if want is None:
                     rr.add(Finding('THROW-TYPE', '%s|unlisted' % f['key'], prog.site(f, n),
@@ -276,7 +285,7 @@ def throw_type(progs):
                 if ty != want:
                     rr.add(Finding('THROW-TYPE', '%s|type' % f['key'], prog.site(f, n),
                                    'throws %s where %s is documented' % (ty, want), where=f['pname'], unit=prog.uname))
-                if f['name'].endswith('::at'):
+                if (role_name or '').endswith('::at'):
                     P = P or A.Parents(body)
                     g = P.guards(n)
                     ok = False
